@@ -178,7 +178,7 @@ def run(ctx, rep):
     from ..runner import Report
     sub = Report("C02")
     c02.run(ctx, sub)
-    badsz = [v for v in sub.violations if v.rule == "decode-size"]
+    badsz = [v for v in sub.violations if v.rule in ("decode-size", "premise")]
     rep.require(not badsz, "entry-advance", "decode-size rule of C02", "src/parse.rs", "every in-crate ParseAt::parse_at advances the cursor by size_for(class) on success",
                 "an entry decoder does not advance the cursor by its entry size, so tables / iterators over it do not yield the whole entries in order: %s"
                 % "; ".join("%s: %s" % (v.key, v.msg[:160]) for v in badsz[:3]))
